@@ -169,7 +169,8 @@ def r2_dedup(ctx):
                   f'{f.name} appends to self.decorations without the duplicate guard: a signifier written twice is exported twice, '
                   f'and re-import/export of `4cLL` then differs from `4cL`')
     st = base.methods.get('enterStart')
-    okr = st is not None and any(isinstance(n, ast.Assign) and src(n.targets[0]) == 'self.decorations' and src(n.value) == '[]'
+    okr = st is not None and any(isinstance(n, (ast.Assign, ast.AnnAssign)) and src(n.targets[0] if isinstance(n, ast.Assign) else n.target)
+                                 == 'self.decorations' and n.value is not None and src(n.value) in ('[]', 'list()')
                                  for n in walk_local(st.node))
     ctx.check(okr, 'R2', st.loc if st else base.loc, f'{LST}.enterStart', 'decorations-not-reset',
               'enterStart rebinds the decoration list to a fresh list for every cell')
